@@ -3,7 +3,9 @@ use serde_json::Value;
 
 use crate::engine::{CheckResult, Ctx, Tier};
 
+pub mod c01;
 pub mod c02;
+pub mod c05;
 pub mod c11;
 pub mod c13;
 pub mod c14;
@@ -27,7 +29,7 @@ pub struct PropDef {
 }
 
 pub fn all() -> Vec<PropDef> {
-    vec![c02::def(), c11::def(), c13::def(), c14::def(), c15::def(), c16::def()]
+    vec![c01::def(), c02::def(), c05::def(), c11::def(), c13::def(), c14::def(), c15::def(), c16::def()]
 }
 
 pub fn find(id: &str) -> Option<PropDef> {
